@@ -15,9 +15,16 @@ import (
 )
 
 func (r *sgRun) viol(prop, class, detail string) {
-	if r.c.Prop == prop {
-		r.res.violate(class, detail)
+	if r.c.Prop != prop {
+		return
 	}
+	if r.invalidRemote != "" && (prop == "C06" || prop == "C07" || prop == "C08" || prop == "C09" || prop == "C10" || prop == "C12" || prop == "C16") {
+		// the remote side broke the rules of renegotiation earlier in this history (see sgGenState.tainted):
+		// what the peer generates afterwards is not judged
+		r.res.stat("generated_descriptions_not_judged"+r.invalidRemote, 1)
+		return
+	}
+	r.res.violate(class, detail)
 }
 
 // ---------------------------------------------------------------- C01 reference model
@@ -265,7 +272,8 @@ func sgCheckNegotiationNeeded(r *sgRun, pi int) {
 		}
 	}
 	// epochs: a transition into stable (successful set* landing on stable) starts a new epoch
-	epochStartFires := 0 // number of fires at the start of the current epoch
+	epochStartFires := 0  // number of fires at the start of the current epoch
+	stableStartFires := 0 // number of fires at the last transition into stable
 	lastOfferStart := -1 // record index where the most recent exchange began
 	completedAfter := -1 // the most recent completed exchange began at this record index
 	for _, rec := range r.recs {
@@ -284,8 +292,19 @@ func sgCheckNegotiationNeeded(r *sgRun, pi int) {
 				r.viol("C04", "negotiationneeded-fired-twice-without-completed-exchange", fmt.Sprintf("peer %d: %d invocations between two transitions into stable (before op %d)", pi, rec.Pre.NegFires-epochStartFires, rec.Idx))
 			}
 			epochStartFires = rec.Pre.NegFires
+			stableStartFires = rec.Pre.NegFires
 			completedAfter = lastOfferStart
 			_ = n
+		}
+		// W3C 4.7.3: the flag is also cleared when the check finds that negotiation is no longer
+		// needed, and the next change then fires again. Operations that can take a pending need
+		// away (the sender or the transceiver goes away again, the direction changes back) start a
+		// new epoch, whether or not they did: the rule errs on the quiet side here.
+		if rec.Kind == "media" && (rec.Op.Kind == "removetrack" || rec.Op.Kind == "stop" || rec.Op.Kind == "replacetrack") && rec.Err == "" {
+			if rec.Pre.NegFires-epochStartFires > 1 {
+				r.viol("C04", "negotiationneeded-fired-twice-without-completed-exchange", fmt.Sprintf("peer %d: %d invocations since the last transition into stable (before op %d)", pi, rec.Pre.NegFires-epochStartFires, rec.Idx))
+			}
+			epochStartFires = rec.Pre.NegFires
 		}
 		// (b) a pending change must have produced an invocation once stable and drained
 		if rec.Undrained {
@@ -298,7 +317,7 @@ func sgCheckNegotiationNeeded(r *sgRun, pi int) {
 					uncovered = fmt.Sprintf("%s at op %d", ch.what, ch.at)
 				}
 			}
-			if uncovered != "" && rec.Post.NegFires-epochStartFires < 1 {
+			if uncovered != "" && rec.Post.NegFires-stableStartFires < 1 {
 				r.viol("C04", "negotiationneeded-not-fired-after-change", fmt.Sprintf("peer %d: %s is not covered by a completed exchange, connection stable and drained after op %d, but no OnNegotiationNeeded invocation since the last transition into stable", pi, uncovered, rec.Idx))
 			}
 		}
@@ -427,6 +446,24 @@ func sgMonitorGenerated(r *sgRun, ps *sgPeerState, rec *sgRec) {
 			}
 		}
 	}
+	if applied && (rec.Type == "answer" || rec.Type == "pranswer") && r.invalidRemote == "" {
+		// an answer mirrors the offer it answers; one that does not (a description that was meant for
+		// somebody else) is applied by pion without complaint, but nothing sensible follows from it
+		if ld := pc.LocalDescription(); ld != nil {
+			lo := vfParseSDP(ld.SDP)
+			same := len(lo.Sections) == len(p0(rec).Sections)
+			for i := 0; same && i < len(lo.Sections); i++ {
+				am, _ := p0(rec).Sections[i].Mid()
+				om, _ := lo.Sections[i].Mid()
+				if am != om || lo.Sections[i].Kind != p0(rec).Sections[i].Kind {
+					same = false
+				}
+			}
+			if !same {
+				r.invalidRemote = ":remote-answer-does-not-mirror-the-offer"
+			}
+		}
+	}
 	if applied {
 		if g.collided == nil {
 			g.collided, g.midKind = map[string]bool{}, map[string]string{}
@@ -442,6 +479,7 @@ func sgMonitorGenerated(r *sgRun, ps *sgPeerState, rec *sgRec) {
 			if k, seen := g.midKind[m]; seen && k != s.Kind && g.tainted == "" {
 				// not a legal renegotiation: a mid keeps its media kind for the life of the session
 				g.tainted = ":remote-changed-the-kind-of-a-mid"
+				r.invalidRemote = g.tainted
 			}
 			g.midKind[m] = s.Kind
 		}
@@ -1010,3 +1048,5 @@ func sgOriginMid(g *sgGenState, mid string) string {
 	}
 	return ""
 }
+
+func p0(rec *sgRec) *vfSDP { return vfParseSDP(rec.Desc.SDP) }
